@@ -199,7 +199,13 @@ func newWorld(p Program) (*world, error) {
 	s.Handle("s.$id", res.Group("shared"), res.GetModel(func(r res.ModelRequest) { touch(r); r.Model(map[string]int{"v": 1}) }),
 		res.Call("do", func(r res.CallRequest) { touch(r); r.Event("ping", nil); r.OK(nil) }))
 	s.Handle("t.$tag.$id", res.Group("tg.${tag}"), res.GetModel(func(r res.ModelRequest) { touch(r); r.Model(map[string]int{"v": 1}) }),
-		res.Call("do", func(r res.CallRequest) { touch(r); r.OK(nil) }))
+		res.Call("do", func(r res.CallRequest) { touch(r); r.OK(nil) }),
+		// catch-all methods: many method names, each seen for the first time on some resource
+		res.Call("*", func(r res.CallRequest) { touch(r); r.OK(r.Method()) }),
+		res.Auth("*", func(r res.AuthRequest) { touch(r); r.OK(r.Method()) }))
+	s.Handle("w.$id", res.GetModel(func(r res.ModelRequest) { touch(r); r.Model(map[string]int{"v": 1}) }),
+		res.Call("*", func(r res.CallRequest) { touch(r); r.OK(r.Method()) }),
+		res.Auth("*", func(r res.AuthRequest) { touch(r); r.OK(r.Method()) }))
 	s.Handle("p.$id", res.Parallel(true), res.GetModel(func(r res.ModelRequest) { atomic.AddInt64(&w.cbs, 1); r.Model(map[string]int{"v": 1}) }),
 		res.Call("do", func(r res.CallRequest) {
 			atomic.AddInt64(&w.cbs, 1)
@@ -226,13 +232,33 @@ func newWorld(p Program) (*world, error) {
 	w.mst = mockstore.NewStore()
 	s.Handle("ms.$id", res.Model, store.Handler{Store: w.mst, Transformer: store.IDTransformer("id", nil)})
 	w.bst = badgerstore.NewStore(db).SetType(rec{}).SetPrefix("b")
+	// the index queries are prepared once per prefix and handed out again (read-only use)
+	var prepMu sync.Mutex
+	prepared := map[string]*badgerstore.IndexQuery{}
 	w.qs = badgerstore.NewQueryStore(w.bst, func(qs *badgerstore.QueryStore, q url.Values) (*badgerstore.IndexQuery, error) {
-		return &badgerstore.IndexQuery{Index: qs.Index("ia"), KeyPrefix: []byte(q.Get("p")), Limit: -1}, nil
+		prepMu.Lock()
+		defer prepMu.Unlock()
+		iq := prepared[q.Get("p")]
+		if iq == nil {
+			iq = &badgerstore.IndexQuery{Index: qs.Index("ia"), KeyPrefix: []byte(q.Get("p")), Limit: -1}
+			prepared[q.Get("p")] = iq
+		}
+		return iq, nil
 	})
 	w.qs.AddIndex(badgerstore.Index{Name: "ia", Key: func(v interface{}) []byte { return []byte(v.(rec).A) }})
 	s.Handle("bs.$id", res.Model, store.Handler{Store: w.bst, Transformer: store.IDTransformer("id", nil)})
 	w.ust = badgerstore.NewStore(db).SetPrefix("u")
 	s.Handle("us.$id", res.Model, store.Handler{Store: w.ust, Transformer: store.IDTransformer("id", nil)})
+	// a parameterised query resource: every change affects two of its resources, whose query
+	// requests are then served at the same time by different workers
+	s.Handle("bp.$p", res.Collection, store.QueryHandler{QueryStore: w.qs,
+		QueryRequestHandler: func(rname string, pp map[string]string, q url.Values) (url.Values, string, error) {
+			return url.Values{"p": {q.Get("p")}}, "p=" + q.Get("p"), nil
+		},
+		AffectedResources: func(p res.Pattern, qc store.QueryChange) []string {
+			return []string{string(p.ReplaceTag("p", "a")), string(p.ReplaceTag("p", "b"))}
+		},
+		Transformer: store.IDToRIDCollectionTransformer(func(id string) string { return "svc.bs." + id })})
 	w.cst = badgerstore.NewStore(db).SetType([]string{}).SetPrefix("c")
 	s.Handle("cs.$id", res.Collection, store.Handler{Store: w.cst, Transformer: store.IDTransformer("id", nil)})
 	s.Handle("bq", res.Collection, store.QueryHandler{QueryStore: w.qs,
@@ -304,6 +330,12 @@ func (w *world) exec(op Op, family map[string]bool, mu *sync.Mutex) {
 	case "call":
 		note("request")
 		conn.Deliver("call."+op.RID+".do", reply(), []byte(`{"cid":"c1"}`))
+	case "callstar":
+		// a method served by the catch-all handler; the names vary
+		note("request")
+		rid := []string{"svc.w.1", "svc.w.2", "svc.w.3", "svc.t.a.1", "svc.t.b.1"}[op.N%5]
+		typ := []string{"call", "auth"}[(op.N/5)%2]
+		conn.Deliver(typ+"."+rid+".m"+strconv.Itoa(op.N%17), reply(), []byte(`{"cid":"c1"}`))
 	case "access":
 		note("request")
 		conn.Deliver("access."+op.RID, reply(), []byte(`{"cid":"c1","token":{"a":1}}`))
@@ -611,7 +643,7 @@ func genProgram() *rapid.Generator[Program] {
 		p.Yield = rapid.SampledFrom([]int{0, 50, 200, 500}).Draw(t, "yield")
 		p.Sleep = rapid.SampledFrom([]int{0, 10, 100}).Draw(t, "sleep")
 		nt := rapid.IntRange(2, 16).Draw(t, "threads")
-		kinds := []string{"get", "get", "call", "call", "access", "callquery", "qreq", "with", "with", "withgroup", "withres", "reset", "resetall", "token", "tokenreset", "mstore", "mstore", "bstore", "bstore", "bread", "ustore", "ustore", "uread", "bquery", "bflush", "logread", "sleep", "cstore", "cstore", "stdlog"}
+		kinds := []string{"get", "get", "call", "call", "access", "callquery", "qreq", "with", "with", "withgroup", "withres", "reset", "resetall", "token", "tokenreset", "mstore", "mstore", "bstore", "bstore", "bread", "ustore", "ustore", "uread", "bquery", "bflush", "logread", "sleep", "cstore", "cstore", "stdlog", "callstar", "callstar", "qreq"}
 		restartThread := -1
 		if rapid.IntRange(0, 2).Draw(t, "withrestart") == 0 {
 			restartThread = rapid.IntRange(0, nt-1).Draw(t, "rthread")
